@@ -378,6 +378,84 @@ def r04_7(ctx):
 _run_c04b = run
 
 
+
+# ------------------------------------------------------------------------------------------------ R04.8 / R04.9
+def r04_8(ctx):
+    """`tol` is documented as the tolerance the Brownian motion is resolved to.  Times are quantised with
+    round(x, ndigits), i.e. to a grid of spacing 10**-ndigits; if that spacing exceeds tol, an interval *longer* than tol
+    can collapse to zero length (Var W = 0 instead of t - s).  The quantiser built by __init__ is evaluated for several
+    tolerances (powers of ten and others) on exact rationals: two times further apart than tol must stay distinct."""
+    rep, model = ctx.rep, ctx.model
+    rep.rule("R04.8", "the quantisation grid is no coarser than tol: for tol in {1e-1, 3e-3, 1e-3, 5e-4, 2e-6} two times "
+                      "more than tol apart are never rounded onto the same grid point")
+    fi = model.func(BI, "BrownianInterval.__init__")
+    rep.analysed(fi)
+    stmt = None
+    for st in fi.node.body:
+        if isinstance(st, ast.If) and "tol" in {n.id for n in ast.walk(st.test) if isinstance(n, ast.Name)} and \
+                any(isinstance(n, ast.Attribute) and isinstance(n.ctx, ast.Store) and n.attr == "_round" for n in ast.walk(st)):
+            stmt = st
+    if stmt is None:
+        raise AnalysisError("BrownianInterval.__init__ no longer builds `self._round` under a test on `tol`", where=astq.loc(fi))
+    for tol in (Fraction(1, 10), Fraction(3, 1000), Fraction(1, 1000), Fraction(5, 10000), Fraction(2, 10 ** 6)):
+        it = Interp(model, bk.BrownianHooks())
+        me = Obj("bm")
+        env = {fi.params[0]: me, "tol": tol}
+        it.exec_stmt(stmt, env, fi)
+        rnd = me.attrs.get("_round")
+        if rnd is None:
+            raise AnalysisError("`self._round` not set by the tolerance block", where=astq.loc(fi, stmt))
+        bad = None
+        # a window of a few grid cells: k * tol / 7 offsets around a non-grid base point
+        base = Fraction(1210, 10000)
+        pts = [base + tol * Fraction(k, 7) for k in range(0, 40)]
+        vals = [it.call(rnd, [x], {}) for x in pts]
+        for i, x in enumerate(pts):
+            for j in range(i + 1, len(pts)):
+                if pts[j] - x > tol and nf.equal(vals[i], vals[j]):
+                    bad = (x, pts[j], vals[i])
+                    break
+            if bad:
+                break
+        rep.check(bad is None, "R04.8", astq.loc(fi, stmt), f"{fi.key}::R04.8::tol={float(tol):g}",
+                  f"with tol={float(tol):g} the times {float(bad[0]) if bad else 0:.6g} and {float(bad[1]) if bad else 0:.6g} "
+                  f"({float(bad[1] - bad[0]) if bad else 0:.3g} apart, more than tol) are both quantised to "
+                  f"{float(bad[2]) if bad and not isinstance(bad[2], Rat) else (bad[2] if bad else '')}: a query over that interval "
+                  f"returns identically zero (Var W = 0 instead of t - s) although it is longer than the documented resolution",
+                  "grid spacing <= tol")
+    ctx.floor("R04.8", 5)
+
+
+def r04_9(ctx):
+    """Every noise tensor is drawn from a torch generator seeded with one word of SeedSequence.generate_state.  With the
+    default 32-bit words two of K seeds coincide with probability about K^2 / 2^33: after some 10^5 seeds (a few 10^4
+    tree nodes -- an ordinary long solve) two nodes share the *identical* noise tensor, which contradicts "every element
+    of a sample driven by its own independent noise".  64-bit words make a coincidence negligible for any feasible
+    history."""
+    rep, model = ctx.rep, ctx.model
+    rep.rule("R04.9", "seed width: every generate_state(...) whose words seed a torch generator asks for 64-bit words")
+    n = 0
+    for fi in model.funcs_in("torchsde._brownian"):
+        if isinstance(fi.node, ast.Lambda):
+            continue
+        for c in astq.calls(fi):
+            if not (isinstance(c.func, ast.Attribute) and c.func.attr == "generate_state"):
+                continue
+            n += 1
+            dt = astq.arg_or_kw(c, 1, "dtype")
+            ok = dt is not None and (astq.dotted(dt) or "").split(".")[-1] == "uint64"
+            rep.analysed(fi)
+            rep.check(ok, "R04.9", astq.loc(fi, c), f"{fi.key}::R04.9::{astq.digest(c)}",
+                      f"`{ast.unparse(c)}` yields 32-bit words (numpy's default) that are used as torch seeds: among K seeds "
+                      f"about K^2 / 2^33 pairs coincide, so after ~10^5 seeds two tree nodes use the identical noise tensor "
+                      f"(disjoint intervals no longer independent)", "dtype=np.uint64")
+    if n < 2:
+        raise AnalysisError(f"only {n} generate_state call(s) found in the Brownian package")
+    ctx.floor("R04.9", 2)
+
+
 def run(ctx):
     _run_c04b(ctx)
     ctx.guard(r04_7)
+    ctx.guard(r04_8)
+    ctx.guard(r04_9)
